@@ -117,6 +117,19 @@ class Sim:
             v[tg] = self.mark(x)
         elif name == "ivm":
             v[tg] = []
+        elif name == "iva":
+            v[tg] = list(v[1 - tg])
+        elif name == "ivx":
+            v[tg] = list(v[1 - tg]); v[1 - tg] = []
+        elif name in ("sir", "sic", "sem", "fir", "fic", "fem"):
+            key = a[1]
+            if key not in x:
+                if room < 1:
+                    return name[0] == "s"      # static_set ignores the insert, flat_set hits the vector's precondition
+                import bisect
+                bisect.insort(x, key)
+        elif name in ("sek", "fek"):
+            v[tg] = [e for e in x if e != a[1]]
         elif name == "eif":
             v[tg] = [e for e in x if not pred(a[1], e)]
         elif name == "erv":
@@ -124,7 +137,7 @@ class Sim:
         return True
 
 
-COPY_OPS = ("pbc", "icr", "inn", "irg", "rsv", "asn", "asr", "cpa", "cpc", "sca", "tpc", "upc", "ivc")
+COPY_OPS = ("pbc", "icr", "inn", "irg", "rsv", "asn", "asr", "cpa", "cpc", "sca", "tpc", "upc", "ivc", "sic", "sem", "sek", "fic", "fem", "fek", "iva", "isc")
 
 
 def allowed(family, op):
@@ -160,7 +173,183 @@ def single_ops(t, sz, cap, vals):
 HEAVY = ["swp", "ssw 0", "sma 0", "sca 0", "mva 0", "mva 1", "cpa 0", "mvc 0", "mrt 0", "emp 0 0 7", "irv 0 1 7", "era 0 0", "eif 0 0",
          "rsz 0 1", "rsz 0 3", "pop 0", "clr 1", "inn 0 0 2 5", "mig 0 1 2 3 4", "pbr 1 9", "err 0 0 2"]
 
-IV_ALPHA = ["tpc 0 2", "tpr 0 3", "tpe 0 4", "upc 0 5", "upr 0 6", "upe 0 7", "pop 0", "clr 0", "ivc 0", "ivm 0", "tpr 1 6", "ivm 1", "ivc 1"]
+IV_ALPHA = ["tpc 0 2", "tpr 0 3", "tpe 0 4", "upc 0 5", "upr 0 6", "upe 0 7", "pop 0", "clr 0", "ivc 0", "ivm 0", "tpr 1 6", "ivm 1", "ivc 1",
+            "iva 0", "iva 1", "ivx 0", "ivx 1", "isc 0", "ism 0"]
+
+
+
+# ---------------------------------------------------------------------------------------------
+# owners of one object: variant / optional / expected / inplace_function
+OWN_KINDS = {
+    # kind: (indices, flavours)
+    "var": ([0, 1, 2], ["cm", "m", "c"]),
+    "opt": ([0, 1], ["cm", "m", "c"]),
+    "exp": ([0, 1], ["cm", "m", "c"]),
+    "fun": ([0, 1, 2], ["cm", "c"]),
+}
+OWN_COPY_OPS = ("vac", "vca", "vsc", "vcc")
+
+
+def own_both(family, ops):
+    body = f"{family} {len(ops)} " + " ".join(ops)
+    return ["ohist " + body, "omon " + body]
+
+
+def own_allowed(family, op):
+    return not (family.endswith("_m") and op.split()[0] in OWN_COPY_OPS)
+
+
+def own_set(kind, t, i, x):
+    """an operation that puts object t into state i"""
+    if kind == "var": return [f"vem {t} {i} {x}"]
+    if kind == "opt": return [f"vem {t} {i} {x}"]
+    if kind == "exp": return [f"vem {t} 0 {x}"] if i == 0 else [f"vat {t} 1 {x}"]
+    return [f"fas {t} {i} {x}"] if i != 0 else []
+
+
+def own_alphabet(kind, x):
+    ops = []
+    idx = OWN_KINDS[kind][0]
+    for t in (0, 1):
+        if kind == "var":
+            for j in idx:
+                ops += [f"vem {t} {j} {x}", f"var {t} {j} {x}", f"vac {t} {j} {x}", f"vat {t} {j} {x}"]
+        elif kind == "opt":
+            ops += [f"vem {t} 0 0", f"vem {t} 1 {x}", f"vav {t} 1 {x}", f"vav {t} 0 0", f"vat {t} 0 0", f"vat {t} 1 {x}"]
+        elif kind == "exp":
+            ops += [f"vem {t} 0 {x}", f"vat {t} 0 {x}", f"vat {t} 1 {x}"]
+        else:
+            ops += [f"fas {t} 1 {x}", f"fas {t} 2 {x}", f"fan {t}", f"fca {t}", f"fma {t}", f"fsc {t}", f"fsm {t}", f"fcc {t}", f"fmc {t}",
+                    f"fss {t}", f"fiv {t}"]
+        if kind != "fun":
+            ops += [f"vca {t}", f"vma {t}", f"vsc {t}", f"vsm {t}", f"vcc {t}", f"vmc {t}", f"vss {t}"]
+    ops.append("fsw" if kind == "fun" else "vsw")
+    return ops
+
+
+def gen_own(tier, rng):
+    quick = tier == "quick"
+    out = []
+    for kind, (idx, flavours) in OWN_KINDS.items():
+        alpha = own_alphabet(kind, 7)
+        probes = (["fsw", "fmc 0"] if kind == "fun" else ["vsw", "vmc 0"])
+        # every single operation from every pair of states (all from/to index combinations)
+        for i0 in idx:
+            for i1 in idx:
+                setup = own_set(kind, 0, i0, 11) + own_set(kind, 1, i1, 22)
+                for o in alpha:
+                    for fl in flavours:
+                        fam = f"{kind}_{fl}"
+                        if not own_allowed(fam, o):
+                            continue
+                        out += own_both(fam, setup + [o] + probes)
+        # pairs of operations from a mixed state
+        i0, i1 = idx[-1], idx[0]
+        setup = own_set(kind, 0, i0, 11) + own_set(kind, 1, i1, 22)
+        alpha2 = own_alphabet(kind, 9)
+        for a in alpha:
+            for b_ in alpha2:
+                for fl in flavours:
+                    fam = f"{kind}_{fl}"
+                    if not (own_allowed(fam, a) and own_allowed(fam, b_)):
+                        continue
+                    if quick and rng.random() < (0.75 if fl == "cm" else 0.9):
+                        continue
+                    out += own_both(fam, setup + [a, b_])
+        # random histories
+        for _ in range(120 if quick else 6000):
+            fl = rng.choice(flavours)
+            fam = f"{kind}_{fl}"
+            ops = []
+            for _k in range(rng.randint(2, 14)):
+                o = rng.choice(own_alphabet(kind, rng.choice([1, 18, 35, 52, 3])))
+                if own_allowed(fam, o):
+                    ops.append(o)
+            out += own_both(fam, ops)
+    return out
+
+
+
+# ---------------------------------------------------------------------------------------------
+# adapters over static_vector: stack, static_set, flat_set (same model, their own operations)
+def adapter_ops(kind, t, sz, xs):
+    common = ["swp", f"cpa {t}", f"mva {t}", f"cpc {t}", f"mvc {t}", f"mrt {t}", f"sca {t}", f"sma {t}", f"ssw {t}"]
+    ops = []
+    if kind == "sk":
+        for x in xs:
+            ops += [f"pbr {t} {x}", f"pbc {t} {x}", f"eb {t} {x}"]
+        return ops + [f"pop {t}"] + common
+    p = "s" if kind == "ss" else "f"
+    for x in xs:
+        ops += [f"{p}ir {t} {x}", f"{p}ic {t} {x}", f"{p}em {t} {x}", f"{p}ek {t} {x}"]
+    ops.append(f"clr {t}")
+    for pos in range(0, sz + 1):
+        ops.append(f"era {t} {pos}")
+        for l in range(pos, sz + 2):
+            ops.append(f"err {t} {pos} {l}")
+    return ops + common
+
+
+def gen_adapters(tier, rng):
+    quick = tier == "quick"
+    out = []
+    keys_all = [2, 18, 35, 52, 70]
+    for kind in ("sk", "ss", "fs"):
+        fams = [f"{kind}_cm", f"{kind}_m", f"{kind}_c"]
+        # every single operation, with keys below / equal to / between / above the present ones, from every size state
+        for cap in [1, 2, 3] + ([] if quick else [4]):
+            for n0 in range(0, cap + 1):
+                for n1 in sorted({0, min(cap, 1)}):
+                    present = [18, 35, 52, 60][:n0]
+                    ins = ("eb" if kind == "sk" else ("sir" if kind == "ss" else "fir"))
+                    setup = [f"{ins} 0 {k}" for k in present] + [f"{ins} 1 {k + 1}" for k in present[:n1]]
+                    for o in adapter_ops(kind, 0, n0, [7] if kind == "sk" else [2, 18, 20, 52, 99]):
+                        for fam in fams:
+                            if not allowed(fam, o):
+                                continue
+                            if quick and fam[3:] != "cm" and rng.random() < 0.6:
+                                continue
+                            out += both(fam, cap, setup + [o, "mvc 0", "swp"])
+        # random histories
+        for _ in range(250 if quick else 10000):
+            fam = rng.choice(fams)
+            cap = rng.choice([1, 2, 3, 4, 16])
+            sim = Sim(cap, not fam.endswith("_c"))
+            ops = []
+            for _k in range(rng.randint(3, 30)):
+                t = rng.randint(0, 1)
+                cand = [o for o in adapter_ops(kind, t, len(sim.v[t]), [rng.choice(keys_all)]) if allowed(fam, o)]
+                rng.shuffle(cand)
+                for o in cand:
+                    if sim.clone().apply(o):
+                        ops.append(o)
+                        sim.apply(o)
+                        break
+            out += both(fam, cap, ops)
+    return out
+
+
+
+# ---------------------------------------------------------------------------------------------
+# pair / tuple
+AGG_COPY = ("aca", "asc", "acc")
+
+
+def gen_agg(tier, rng):
+    quick = tier == "quick"
+    out = []
+    alpha = [f"{o} {t}" for o in ("aca", "ama", "asc", "asm", "acc", "amc", "ass") for t in (0, 1)] + ["asw"]
+    for kind in ("pr", "tp"):
+        for fl in ("cm", "m", "c"):
+            fam = f"{kind}_{fl}"
+            al = [o for o in alpha if not (fl == "m" and o.split()[0] in AGG_COPY)]
+            for h in itertools.product(al, repeat=2 if quick else 3):
+                ops = list(h)
+                out += [f"ahist {fam} {len(ops)} " + " ".join(ops), f"amon {fam} {len(ops)} " + " ".join(ops)]
+            for _ in range(40 if quick else 2000):
+                ops = [rng.choice(al) for _k in range(rng.randint(3, 12))]
+                out += [f"ahist {fam} {len(ops)} " + " ".join(ops), f"amon {fam} {len(ops)} " + " ".join(ops)]
+    return out
 
 
 def gen(tier, rng):
@@ -198,7 +387,7 @@ def gen(tier, rng):
             for fam in families_iv:
                 if not all(allowed(fam, o) for o in h):
                     continue
-                if quick and rng.random() < 0.8:
+                if quick and rng.random() < 0.93:
                     continue
                 out += both(fam, cap, list(h))
     # ---- random capacity-aware histories
@@ -217,7 +406,7 @@ def gen(tier, rng):
             x = rng.choice(VALS + [52, 3])
             if fam.startswith("iv"):
                 cand = [f"tpc {t} {x}", f"tpr {t} {x}", f"tpe {t} {x}", f"upc {t} {x}", f"upr {t} {x}", f"upe {t} {x}", f"pop {t}",
-                        f"clr {t}", f"ivc {t}", f"ivm {t}"]
+                        f"clr {t}", f"ivc {t}", f"ivm {t}", f"iva {t}", f"ivx {t}", f"isc {t}", f"ism {t}"]
             else:
                 pos = rng.randint(0, sz)
                 n = rng.randint(0, max(0, min(room, 5)))
@@ -251,10 +440,13 @@ def gen(tier, rng):
             ops.append(chosen)
             sim.apply(chosen)
         out += both(fam, cap, ops)
+    out += gen_adapters(tier, rng)
+    out += gen_own(tier, rng)
+    out += gen_agg(tier, rng)
     return out
 
 
 def nontrivial(case, impl):
-    if case.startswith("hist"):
+    if case.startswith("hist") or case.startswith("ohist") or case.startswith("ahist"):
         return ("Cm" in impl) or ("Cc" in impl) or ("Am" in impl) or ("Ac" in impl)
     return "self 1" in impl or "alive 0" in impl
